@@ -576,7 +576,80 @@ func ruleFileRegex(c *Ctx) []Obligation {
 			candOK = true
 		}
 	})
-	if candOK {
+	// … or no list is kept: the greatest candidate so far is carried round the scan (`if fn > latest { latest = fn }`)
+	var runMax *ssa.BinOp
+	runMaxRight := false
+	if candApp == nil {
+		eachInstr(fid, func(in ssa.Instruction) {
+			bo, isB := in.(*ssa.BinOp)
+			if !isB || !isStringType(bo.X.Type()) || loopHeaderOf(bo.Block()) == nil {
+				return
+			}
+			var cand, cur ssa.Value
+			switch bo.Op {
+			case token.GTR, token.GEQ:
+				cand, cur = bo.X, bo.Y
+			case token.LSS, token.LEQ:
+				cand, cur = bo.Y, bo.X
+			default:
+				return
+			}
+			phi, isPhi := cur.(*ssa.Phi)
+			if !isPhi || phi.Block() != loopHeaderOf(bo.Block()) {
+				// the other way round (`latest > fn`): the smallest is carried, not the greatest
+				if p2, isP2 := cand.(*ssa.Phi); isP2 && p2.Block() == loopHeaderOf(bo.Block()) {
+					runMax, runMaxRight = bo, false
+				}
+				return
+			}
+			// the candidate is what the carried value becomes when the comparison holds
+			carried := false
+			var walk func(v ssa.Value, d int)
+			seenV := map[ssa.Value]bool{}
+			walk = func(v ssa.Value, d int) {
+				if seenV[v] || d > 6 {
+					return
+				}
+				seenV[v] = true
+				if v == cand {
+					carried = true
+				}
+				if p, isP := v.(*ssa.Phi); isP {
+					for _, e := range p.Edges {
+						walk(e, d+1)
+					}
+				}
+			}
+			for _, e := range phi.Edges {
+				walk(e, 0)
+			}
+			if !carried {
+				return
+			}
+			runMax, runMaxRight = bo, true
+			hasPrefix, matches := false, false
+			for _, g := range guardsAt(bo.Block()) {
+				backSliceCond(g.Cond, func(x ssa.Value) {
+					if cl, okc := x.(*ssa.Call); okc && g.Branch {
+						if calleeIs(cl, "strings", "HasPrefix") {
+							hasPrefix = true
+						}
+						if calleeIs(cl, "regexp", "MatchString") {
+							if tp, okt := cl.Call.Args[len(cl.Call.Args)-1].(*ssa.Call); okt && calleeIs(tp, "strings", "TrimPrefix") {
+								matches = true
+							}
+						}
+					}
+				})
+			}
+			if hasPrefix && matches {
+				candOK = true
+			}
+		})
+	}
+	if candOK && runMax != nil {
+		obs = append(obs, ok(R, con, c.InstrPos(runMax), "HasPrefix(fn, mname) && pattern.MatchString(TrimPrefix(fn, mname)) in front of the comparison with the greatest so far"))
+	} else if candOK {
 		obs = append(obs, ok(R, con, c.InstrPos(candApp), "HasPrefix(fn, mname) && pattern.MatchString(TrimPrefix(fn, mname))"))
 	} else {
 		obs = append(obs, bad(R, con, c.Pos(fid.Pos()), "the candidate filter does not require both the name prefix and the anchored suffix"))
@@ -596,7 +669,13 @@ func ruleFileRegex(c *Ctx) []Obligation {
 			})
 		}
 	})
-	if sorted {
+	if runMax != nil && candApp == nil {
+		if runMaxRight {
+			obs = append(obs, ok(R, con, c.InstrPos(runMax), "no list: the greatest name so far is carried round the scan and returned"))
+		} else {
+			obs = append(obs, bad(R, con, c.InstrPos(runMax), "the smallest candidate is carried round the scan, not the greatest: the oldest revision is chosen"))
+		}
+	} else if sorted {
 		obs = append(obs, ok(R, con, c.Pos(fid.Pos()), "sort.Strings(revisions); revisions[len-1]"))
 	} else {
 		obs = append(obs, bad(R, con, c.Pos(fid.Pos()), "the last candidate is taken without sorting: the chosen revision depends on directory order"))
